@@ -61,7 +61,13 @@ def run_history(run: Run, scen: dict, rng: random.Random):
     nsteps = scen["steps"]
     w = World()
     base_ctx0_known = set()
-    orig = TorchCompiler._compile_circuit
+    orig = getattr(TorchCompiler, "_compile_circuit", None)
+    observable = orig is not None
+    if not observable:
+        # compiled circuits are numbered in the order the compiler produces them; without the spy the
+        # numbering of the model cannot be matched, so the history is not compared
+        run.feature("unobservable", "TorchCompiler._compile_circuit")
+        return
 
     def spy(self, sc):
         cc = orig(self, sc)
@@ -73,7 +79,8 @@ def run_history(run: Run, scen: dict, rng: random.Random):
         w.ccs.append(cc)
         return cc
 
-    TorchCompiler._compile_circuit = spy
+    if observable:
+        TorchCompiler._compile_circuit = spy
     start_active = PL._PIPELINE_CONTEXT.get()
     # the default context may already know circuits from earlier histories: use a private default
     ops, real_outs = [], []
@@ -219,7 +226,7 @@ def run_history(run: Run, scen: dict, rng: random.Random):
             if mo != out:
                 run.violation("step-output", hist, f"step {len(ops) - 1} {op}: real {out}, model {mo}")
                 return
-            if r["compile_log"] != w.log:
+            if observable and r["compile_log"] != w.log:
                 run.violation("compile-order", hist, f"_compile_circuit calls (ctx, circuit) {w.log} vs model {r['compile_log']} after step {len(ops) - 1} {op}: operands must be compiled before, and only once for, the circuits derived from them")
                 return
             if act_id != r["active"] or not reg_ok:
@@ -228,7 +235,8 @@ def run_history(run: Run, scen: dict, rng: random.Random):
             run.exact += 1
         scen["n_ops"] = len(ops)
     finally:
-        TorchCompiler._compile_circuit = orig
+        if observable:
+            TorchCompiler._compile_circuit = orig
         # unwind whatever is still entered, then our private default
         for c in reversed(w.entered):
             try:
